@@ -22,7 +22,7 @@ def run(ctx):
     import props.C01 as C01
     d, rng = ctx.driver, ctx.rng
     quick = ctx.tier == "quick"
-    ncases = 60 if quick else 700
+    ncases = 60 if quick else 3000
     for case in range(ncases):
         route = rng.choice(["taylor-dense", "sparse-multi"])
         norb = rng.choice([2, 2, 3])
@@ -125,7 +125,7 @@ def run(ctx):
             else:
                 ctx.disagree("series:chebyshev-break-on-last-term-only", f"distance {dist:.3e} > accuracy {accuracy:g}; broke at order {k}", desc)
     # ---- exact routes: unitarity for long times and large coefficients ---------------------------
-    for case in range(12 if quick else 100):
+    for case in range(12 if quick else 400):
         route = rng.choice(["diagonal", "quadratic", "diagcoulomb", "individual"])
         norb = rng.choice([2, 3])
         made = make_case(ctx, rng, route, norb)
